@@ -442,9 +442,34 @@ fn route_outcome(c: &RouteCase) -> Result<Option<Discrepancy>, String> {
             }
             GossipRouter::new(ring.clone(), me, peers, true)
         };
+        // Routing must not remember anything that membership changes can outdate. In half of the cases with
+        // membership changes (decided by the case itself, so a witness replays the same way) the batch is also
+        // routed *before* the changes and *between* the ring update and the peer-table update of each change
+        // (results discarded): a router that caches per-key targets has to invalidate them at both steps.
+        let warm = !c.ops.is_empty() && h64(&(c.sender, &c.ops, c.batch.len())) % 2 == 0;
+        let warm_route = |router: &GossipRouter| {
+            let me = ReplicaId::new(c.sender);
+            let ds: Vec<ReplicationDelta> = c.batch.iter().enumerate().map(|(i, k)| ReplicationDelta::new(k.clone(), ReplicatedValue::with_value(SDS::from_str("v"), LamportClock { time: i as u64, replica_id: me }), me)).collect();
+            let _ = router.route_deltas(ds);
+        };
+        if warm {
+            warm_route(&router);
+        }
         for &(add, id) in &c.ops {
-            let (mut w, r) = (ring.write().unwrap(), ReplicaId::new(id));
-            let _ = if add { (w.add_node(r), router.update_peer(r, addr(id))) } else { (w.remove_node(r), router.remove_peer(r)) };
+            let r = ReplicaId::new(id);
+            if add {
+                ring.write().unwrap().add_node(r);
+                if warm {
+                    warm_route(&router);
+                }
+                router.update_peer(r, addr(id));
+            } else {
+                router.remove_peer(r);
+                if warm {
+                    warm_route(&router);
+                }
+                ring.write().unwrap().remove_node(r);
+            }
         }
         if !router.is_selective() {
             return Some(Discrepancy { kind: "router-not-selective", target: 0, idx: 0, detail: "is_selective() == false for a partitioned-cluster config".into() });
